@@ -42,7 +42,10 @@ REQUIRED_BINS = ["retry", "retry_while_other_buffer_fills", "zlp_after_full_pack
                  "zlp_retry", "input_stalled_both_buffers_full", "token_for_other_endpoint", "ack_for_other_endpoint", "out_token_same_endpoint",
                  "mps_8", "mps_16", "mps_32", "mps_64", "harness_manager", "harness_device", "device_two_endpoints", "tx_stalls",
                  "byte_accepted_on_ack_cycle", "flush_on_ack_cycle", "in_token_while_packet_completes", "single_byte_transfer",
-                 "ack_for_other_device", "ack_for_other_device_after_unacked_packet"]
+                 "ack_for_other_device", "ack_for_other_device_after_unacked_packet",
+                 "mps_512", "device_mps_512", "device_fs60", "discard", "discard_with_packet_ready", "discard_with_unacked_packet",
+                 "byte_dropped_during_discard", "last_byte_dropped_on_final_discard_cycle", "in_token_during_discard",
+                 "delivery_after_discard", "input_stall_judged"]
 REQUIRED_EVENTS = ["input_bytes_accepted", "packets_seen", "host_packets_accepted", "host_bytes_accepted", "naks_seen", "acks_delivered",
                    "in_tokens", "cycles_monitored", "drains_completed"]
 ASSUMPTIONS = ["discard, reset_sequence and start_with_data1 are held low; generate_zlps is high (as in USBStreamInEndpoint)",
@@ -64,7 +67,7 @@ def make_stream(rng, mps, nbytes, max_packets=36):
     salt = rng.randrange(256)
     len_mode = rng.choice(["around_mps", "around_mps", "random", "tiny", "nolast", "multiples", "alllast"])
     gap_mode = rng.choice(["full", "full", "sparse", "bursty", "mixed", "aim"])
-    max_packets = rng.randint(12, max_packets)
+    max_packets = rng.randint(min(12, max_packets), max_packets)
     npk = 0
     out = []
     pos = 0
@@ -203,6 +206,47 @@ def flusher(b, rng, flush_sig, mode, st):
                 yield
 
 
+READY_WAIT = 24   # cycles an offered byte may wait although the double buffer has room
+
+
+def input_side(orc, st, res, cyc, v, r, payload, last, discard, flush_never):
+    """Common input-stream bookkeeping of both harnesses: discard episodes, accepted / dropped bytes, ready liveness."""
+    if discard:
+        if not st.get("in_discard"):
+            st["in_discard"] = True
+            if not orc.on_discard():
+                res.unjudged += 1
+        st["discard_cycles"] = st.get("discard_cycles", 0) + 1
+    elif st.get("in_discard"):
+        st["in_discard"] = False
+        if st.get("last_dropped_cycle") == cyc - 1 and st.get("last_dropped_was_last"):
+            res.bin("last_byte_dropped_on_final_discard_cycle")
+            orc.end_flag_suspect = True
+            orc.end_flag_cycle = cyc
+    accepted = False
+    if v and r:
+        if discard:
+            res.bin("byte_dropped_during_discard")
+            st["last_dropped_cycle"] = cyc
+            st["last_dropped_was_last"] = bool(last)
+        else:
+            orc.on_input(payload, last, cyc)
+            accepted = True
+        st["wait"] = 0
+    elif v and not discard:
+        w = st["wait"] = st.get("wait", 0) + 1
+        if w == READY_WAIT and not orc.dead and not st.get("ack_pending") and cyc - st.get("last_ack_cycle", -99) >= READY_WAIT:
+            nothing = orc.dev_len >= len(orc.inp) and not orc._zlp_owed_to_device() and (orc.prev is None or orc.prev["dev_acked"])
+            if flush_never or nothing:
+                res.bin("input_stall_judged")
+                if orc.has_room() and (orc.prev is None or orc.prev["dev_acked"] or flush_never):
+                    res.violation("discarded_last_byte_leaves_end_flag" if orc.end_flag_suspect else "input_stalled_although_buffer_space", "cyc=%d transfer_stream.valid has been high for %d cycles without ready although at most "
+                                  "one packet is un-acknowledged (accepted %d, acknowledged %d, mps %d)" % (cyc, w, len(orc.inp), orc.dev_len, orc.mps))
+    else:
+        st["wait"] = 0
+    return accepted
+
+
 def choose_outcome(rng, host_mode):
     r = rng.random()
     if host_mode == "clean":
@@ -226,11 +270,16 @@ def gap_cycles(rng, pace, mps):
 def run_manager(rng, tier, res):
     from luna.gateware.usb.usb2.transfer import USBInTransferManager
     res.bin("harness_manager")
-    mps = rng.choice([8, 8, 16, 16, 32, 64, rng.choice([1, 2, 3, 5, 13])])
-    if mps in (8, 16, 32, 64):
+    mps = rng.choice([8, 8, 8, 16, 16, 16, 32, 32, 64, 64, rng.choice([1, 2, 3, 5, 13]), rng.choice([1, 2, 3, 5, 13]), 512])
+    if mps in (8, 16, 32, 64, 512):
         res.bin("mps_%d" % mps)
-    nbytes = rng.randint(6 * mps, 22 * mps) if mps >= 8 else rng.randint(20, 80)
-    items, len_mode, gap_mode = make_stream(rng, mps, min(nbytes, 900))
+    if mps == 512:
+        nbytes = rng.randint(2 * mps, 5 * mps)
+        items, len_mode, gap_mode = make_stream(rng, mps, nbytes, max_packets=14)
+    else:
+        nbytes = rng.randint(6 * mps, 22 * mps) if mps >= 8 else rng.randint(20, 80)
+        items, len_mode, gap_mode = make_stream(rng, mps, min(nbytes, 900))
+    discard_p = rng.choice([0, 0, 0.06, 0.12])
     flush_mode = rng.choice(["never", "never", "never", "pulses", "rare", "long", "always", "aim"])
     ready_prof = rng.choice(["always", "always", ("random", rng.choice([0.3, 0.6, 0.9])), ("every", rng.randint(2, 5)),
                              ("bursty", rng.randint(2, 15), rng.randint(1, 8))])
@@ -241,11 +290,11 @@ def run_manager(rng, tier, res):
     ts, ps, tk = dut.transfer_stream, dut.packet_stream, dut.tokenizer
     sigs = [ts.valid, ts.ready, ts.payload, ts.first, ts.last, ps.valid, ps.ready, ps.payload, ps.first, ps.last, dut.data_pid,
             dut.flush, dut.active, tk.is_in, tk.ready_for_response, tk.new_token, dut.handshakes_in.ack, dut.handshakes_out.nak,
-            dut.handshakes_out.ack, dut.handshakes_out.stall]
+            dut.handshakes_out.ack, dut.handshakes_out.stall, dut.discard]
     b.watch(*sigs)
     res.desc = {"harness": "manager", "mps": mps, "bytes": len(items), "lengths": len_mode, "gaps": gap_mode, "flush": flush_mode,
-                "tx_ready": ready_prof, "host": host_mode, "pace": pace, "schedule": []}
-    res.sig("A", mps, items, flush_mode, ready_prof, host_mode, pace)
+                "tx_ready": ready_prof, "host": host_mode, "pace": pace, "discard_p": discard_p, "schedule": []}
+    res.sig("A", mps, items, flush_mode, ready_prof, host_mode, pace, discard_p)
     orc = InOracle(mps, res.violation, res.bin, "manager")
     st = {"cons": "IDLE", "cur": None, "pid_wait": 0, "packets": [], "naks": [], "window_until": -1, "aim_cycle": None, "aim_flush": None,
           "burst": 0, "since_input": 999, "last_tok_in_ours": False}
@@ -272,8 +321,7 @@ def run_manager(rng, tier, res):
         g = b.get
         cyc = b.cycle
         # input side
-        if g(ts.valid) and g(ts.ready):
-            orc.on_input(g(ts.payload), g(ts.last), cyc)
+        if input_side(orc, st, res, cyc, g(ts.valid), g(ts.ready), g(ts.payload), g(ts.last), g(dut.discard), flush_mode == "never"):
             res.event("input_bytes_accepted")
             st["since_input"] = 0
             if g(dut.handshakes_in.ack):
@@ -406,12 +454,17 @@ def run_manager(rng, tier, res):
                 res.unjudged += 1
             return "nak"
         pkt = st["packets"][-1]
+        if st.get("token_in_discard") and not orc.dead:
+            res.violation("packet_sent_while_discarding", "cyc=%d IN token while discard is high answered with DATA%d %s" % (b.cycle, pkt["pid"], pkt["data"].hex()))
+            orc.dead = True
         if len(pkt["data"]) == 0 and st.get("last_unacked_zlp"):
             res.bin("zlp_retry")
         host_ok = outcome != "none"
         dev_acked = outcome == "ack"
         if outcome == "lost":
             res.bin("lost_ack")
+        if dev_acked:
+            st["ack_pending"] = True
         orc.on_packet(pkt["pid"], pkt["data"], host_ok, dev_acked, pkt["start"])
         if host_ok and len(orc.accepted) > st.get("n_acc", 0):
             st["n_acc"] = len(orc.accepted)
@@ -427,11 +480,41 @@ def run_manager(rng, tier, res):
             for _ in range(d):
                 yield
             yield from pulse(dut.handshakes_in.ack)
+            st["ack_pending"] = False
+            st["last_ack_cycle"] = b.cycle
             res.event("acks_delivered")
         else:
             for _ in range(rng.randint(4, 30)):
                 yield
         return "data"
+
+    def discard_episode():
+        """discard between transactions.  Judged when no packet is outstanding un-ACKed (otherwise only hangs are judged)."""
+        unacked = orc.prev is not None and not orc.prev["dev_acked"]
+        if unacked:
+            if rng.random() < 0.6:
+                return
+            res.bin("discard_with_unacked_packet")
+        res.bin("discard")
+        if orc.data_due_cycle() is not None:
+            res.bin("discard_with_packet_ready")
+        n = rng.choice([1, 1, 2, 3, 8, rng.randint(10, 90)])
+        b.set(dut.discard, 1)
+        if n >= 20 and rng.random() < 0.6:
+            for _ in range(rng.randint(2, 6)):
+                yield
+            res.bin("in_token_during_discard")
+            st["token_in_discard"] = True
+            r = yield from in_ours("ack", -2)
+            st["token_in_discard"] = False
+            if r in ("stuck", "none"):
+                b.set(dut.discard, 0)
+                return r
+        for _ in range(n):
+            yield
+        b.set(dut.discard, 0)
+        for _ in range(rng.randint(1, 12)):
+            yield
 
     def noise():
         k = rng.choice(["in_other", "in_other_ack", "out_ours", "out_other", "sof_gap", "foreign_device_ack"])
@@ -491,6 +574,11 @@ def run_manager(rng, tier, res):
             if rng.random() < 0.18:
                 yield from noise()
                 continue
+            if rng.random() < discard_p:
+                r = yield from discard_episode()
+                if r in ("stuck", "none"):
+                    return
+                continue
             outcome = choose_outcome(rng, host_mode)
             r = yield from in_ours(outcome, i)
             if len(res.desc["schedule"]) < 14:
@@ -540,10 +628,18 @@ def run_device(rng, tier, res):
     numbers = rng.sample(range(1, 16), n_ep)
     utmi = UTMIInterface()
     dev = USBDevice(bus=utmi)
+    fs60 = rng.random() < 0.3
+    if fs60:
+        # what USBDevice.__init__ sets for a ULPI-shaped bus: 60 MHz timing tables; full speed is forced by the input
+        dev.always_fs = False
+        dev.data_clock = 60e6
+        res.bin("device_fs60")
     eps = []
     for n in numbers:
-        mps = rng.choice([8, 8, 16, 32, 64])
+        mps = rng.choice([8, 8, 8, 16, 16, 32, 32, 64, 64, 512])
         res.bin("mps_%d" % mps)
+        if mps == 512:
+            res.bin("device_mps_512")
         ep = USBStreamInEndpoint(endpoint_number=n, max_packet_size=mps)
         dev.add_endpoint(ep)
         eps.append({"n": n, "mps": mps, "ep": ep})
@@ -551,22 +647,26 @@ def run_device(rng, tier, res):
         res.bin("device_two_endpoints")
     b = Bench(dev, domain="usb", freq=60e6, max_cycles=90000)
     ready_prof = rng.choice(["always", "always", ("random", rng.choice([0.4, 0.8])), ("every", rng.randint(2, 4)), ("bursty", rng.randint(2, 10), rng.randint(1, 8))])
-    host = UTMIHost(b, utmi, rng, timing="fs12", ready_profile=ready_prof, gap_profile=rng.choice(["none", "none", "random"]))
+    host = UTMIHost(b, utmi, rng, timing="fs60" if fs60 else "fs12", ready_profile=ready_prof, gap_profile=rng.choice(["none", "none", "random"]))
     host_mode = rng.choice(["clean", "normal", "normal", "flaky"])
     pace = rng.choice(["eager", "eager", "lazy", "bursts", "mixed"])
     foreign_addr = rng.randint(1, 127)
-    res.desc = {"harness": "device", "endpoints": [(e["n"], e["mps"]) for e in eps], "tx_ready": ready_prof, "host": host_mode, "pace": pace, "schedule": []}
-    res.sig("B", numbers, ready_prof, host_mode, pace)
+    discard_p = rng.choice([0, 0, 0.05, 0.1])
+    res.desc = {"harness": "device", "fs60": fs60, "discard_p": discard_p, "endpoints": [(e["n"], e["mps"]) for e in eps], "tx_ready": ready_prof, "host": host_mode, "pace": pace, "schedule": []}
+    res.sig("B", numbers, ready_prof, host_mode, pace, fs60, discard_p)
     b.watch(utmi.rx_active)
     for e in eps:
         mps = e["mps"]
-        items, len_mode, gap_mode = make_stream(rng, mps, min(rng.randint(5 * mps, 14 * mps), 600), max_packets=22)
+        if mps == 512:
+            items, len_mode, gap_mode = make_stream(rng, mps, rng.randint(2 * mps, 4 * mps), max_packets=10)
+        else:
+            items, len_mode, gap_mode = make_stream(rng, mps, min(rng.randint(5 * mps, 14 * mps), 600), max_packets=22)
         e["flush_mode"] = rng.choice(["never", "never", "never", "pulses", "rare", "long", "always", "aim"])
         e["st"] = {"aim_cycle": None, "aim_flush": None}
         e["orc"] = InOracle(mps, res.violation, res.bin, "ep%d" % e["n"])
         s = e["ep"].stream
         e["sigs"] = [s.valid, s.ready, s.payload, s.first, s.last]
-        b.watch(*e["sigs"], e["ep"].flush)
+        b.watch(*e["sigs"], e["ep"].flush, e["ep"].discard)
         b.add_driver(producer(b, rng, e["sigs"], items, e["st"], res), main=False)
         b.add_driver(flusher(b, rng, e["ep"].flush, e["flush_mode"], e["st"]), main=False)
         res.desc["ep%d" % e["n"]] = {"bytes": len(items), "lengths": len_mode, "gaps": gap_mode, "flush": e["flush_mode"]}
@@ -579,8 +679,7 @@ def run_device(rng, tier, res):
         cyc = b.cycle
         for e in eps:
             v, r, p, f, l = (g(x) for x in e["sigs"])
-            if v and r:
-                e["orc"].on_input(p, l, cyc)
+            if input_side(e["orc"], e["st"], res, cyc, v, r, p, l, g(e["ep"].discard), e["flush_mode"] == "never"):
                 res.event("input_bytes_accepted")
                 if ackinfo["cycle"] <= cyc <= ackinfo["cycle"] + 2 and ackinfo.get("ep") is e:
                     res.bin("byte_accepted_on_ack_cycle")
@@ -635,6 +734,11 @@ def run_device(rng, tier, res):
         if outcome == "lost":
             res.bin("lost_ack")
         n_acc = len(orc.accepted)
+        if st.get("token_in_discard") and not orc.dead:
+            res.violation("packet_sent_while_discarding", "cyc=%d IN to endpoint %d while its discard is high answered with %s" % (b.cycle, e["n"], bytes(pkt.data).hex()))
+            orc.dead = True
+        if dev_acked:
+            st["ack_pending"] = True
         orc.on_packet(0 if info["pid"] == U.DATA0 else 1, payload, host_ok, dev_acked, pkt.first_valid)
         if len(orc.accepted) > n_acc:
             res.event("host_packets_accepted")
@@ -649,6 +753,9 @@ def run_device(rng, tier, res):
             ackinfo["cycle"] = b.cycle + 3
             ackinfo["ep"] = e
             yield from host.handshake(U.ACK)
+            yield from host.idle(3)
+            st["ack_pending"] = False
+            st["last_ack_cycle"] = b.cycle
             res.event("acks_delivered")
         elif outcome == "lost" and rng.random() < 0.5:
             # the ACK is damaged on its way to the device (PID check nibble broken)
@@ -657,6 +764,31 @@ def run_device(rng, tier, res):
         else:
             yield from host.idle(rng.randint(6, 30))
         return "data"
+
+    def discard_episode(e):
+        orc, st = e["orc"], e["st"]
+        unacked = orc.prev is not None and not orc.prev["dev_acked"]
+        if unacked:
+            if rng.random() < 0.6:
+                return
+            res.bin("discard_with_unacked_packet")
+        res.bin("discard")
+        if orc.data_due_cycle() is not None:
+            res.bin("discard_with_packet_ready")
+        n = rng.choice([1, 1, 2, 3, 8, rng.randint(10, 90)])
+        b.set(e["ep"].discard, 1)
+        if n >= 20 and rng.random() < 0.6:
+            yield from host.idle(rng.randint(2, 6))
+            res.bin("in_token_during_discard")
+            st["token_in_discard"] = True
+            r = yield from in_ep(e, "ack")
+            st["token_in_discard"] = False
+            if r == "none":
+                b.set(e["ep"].discard, 0)
+                return r
+        yield from host.idle(n)
+        b.set(e["ep"].discard, 0)
+        yield from host.idle(rng.randint(1, 12))
 
     def expect_silence(what, gen):
         n0 = len(host.tx_packets)
@@ -716,6 +848,8 @@ def run_device(rng, tier, res):
 
     def hostdrv():
         init_device_signals(b, dev, utmi)
+        if fs60:
+            b.set(dev.full_speed_only, 1)
         yield from host.idle(rng.randint(3, 60))
         steps = rng.randint(12, 30) * n_ep
         i = 0
@@ -728,6 +862,11 @@ def run_device(rng, tier, res):
                 yield from noise()
                 continue
             e = rng.choice(eps)
+            if rng.random() < discard_p:
+                r = yield from discard_episode(e)
+                if r == "none":
+                    return
+                continue
             outcome = choose_outcome(rng, host_mode)
             r = yield from in_ep(e, outcome)
             if len(res.desc["schedule"]) < 14:
